@@ -312,9 +312,13 @@ def resolve_ites(fs, rlimit=300000):
     conds = ite_conditions(targets)
     s = z3.Solver()
     s.set('rlimit', rlimit)
+    s.set('timeout', 500)           # nlsat does not honour rlimit; unknown = leave the condition alone
     s.add(*premises)
     subs = []
+    t_begin = time.time()
     for c in conds:
+        if time.time() - t_begin > 15:
+            break                   # overall budget: the remaining conditions are left alone
         s.push()
         s.add(z3.Not(c))
         r = s.check()
